@@ -258,6 +258,17 @@ pub fn gen_and_run<const L: usize, W: Write>(
     scratch: std::path::PathBuf,
     w: &mut W,
 ) {
+    let _ = gen_and_run_keep::<L, W>(h, g, n_ops, scratch, w);
+}
+
+/// As `gen_and_run`, returning the live book at the end of the history.
+pub fn gen_and_run_keep<const L: usize, W: Write>(
+    h: &BookHeader,
+    g: &mut Gen,
+    n_ops: usize,
+    scratch: std::path::PathBuf,
+    w: &mut W,
+) -> Live<L> {
     writeln!(w, "{}", h.line()).unwrap();
     let mut live = Live::<L>::new(h, scratch).expect("valid header");
     writeln!(w, "I {}", live.initial()).unwrap();
@@ -272,7 +283,7 @@ pub fn gen_and_run<const L: usize, W: Write>(
             writeln!(w, "I {}", i).unwrap();
             count += 1;
             if live.dead {
-                return;
+                return live;
             }
         }
     }
@@ -285,9 +296,10 @@ pub fn gen_and_run<const L: usize, W: Write>(
                 let i = live.step(&op);
                 writeln!(w, "I {}", i).unwrap();
                 if live.dead {
-                    return;
+                    return live;
                 }
             }
         }
     }
+    live
 }
